@@ -54,6 +54,10 @@ def gen_case(seed, tier, index=0):
     if rng.chance(0.4):
         # further files named in the same invocations: the tool iterates a set of paths (hash-seed order)
         extras = rng.sample(["zz/data.json", "zz/other.py", "zz/logo.png", "zz/notes.txt"], rng.randint(1, 2))
+    if use_ext and not dot_license and rng.chance(0.3):
+        # files of the same type as the target, named in most invocations: what one of them already declares (a
+        # contributor the others lack) must survive whichever of them the tool works on first
+        extras = [f"zz/twin{k}{G.STYLES[style][7]}" for k in range(rng.randint(1, 3))]
     bystanders = []
     if rng.chance(0.3):
         # files that are never named, whose names extend the target's (editor back-ups, left-overs): whatever the
@@ -120,6 +124,13 @@ def gen_case(seed, tier, index=0):
             # not go on as if the file were empty
             tgt = name + ".license" if dot_license else rng.pick([n2 + ".license" for n2 in named if n2.endswith((".json", ".png", ".txt"))] or [name])
             faults = [{"op": "open-r", "path": tgt, "errno": rng.pick(["EIO", "ESTALE", "EACCES"]), "nth": 2}]
+        if not faults and rng.chance(0.1):
+            # the write of the new header fails (disk full, quota, I/O error): a run that then reports success for the
+            # file must not have dropped what it declared
+            tgt = name + ".license" if dot_license else name
+            faults = [rng.pick([{"op": "write", "path": tgt, "errno": "ENOSPC", "after": rng.pick([0, 10, 60])},
+                                {"op": "write", "path": tgt, "errno": "EIO", "after": 0},
+                                {"op": "open-w", "path": tgt, "errno": rng.pick(["EACCES", "EROFS", "ENOSPC"])}])]
         steps.append({"argv": ["--no-multiprocessing"] + A.argv_of(opts, named), "clock": t.isoformat(timespec="seconds"),
                       "opts": opts, "named": named, "faults": faults,
                       "observe": [{"kind": "reuse_info", "path": p} for n in [name] + extras + bystanders for p in (n, n + ".license")]})
@@ -127,7 +138,7 @@ def gen_case(seed, tier, index=0):
     files = [{"path": name, "content": content}] + A.template_files(sorted(tnames))
     for e in extras:
         files.append({"path": e, "content": {"zz/data.json": "{}\n", "zz/other.py": "import sys\n", "zz/logo.png": G.BINARY,
-                                             "zz/notes.txt": "notes\n"}[e]})
+                                             "zz/notes.txt": "notes\n"}.get(e, A.body(style, "code"))})
     for b in bystanders:
         files.append({"path": b, "content": "# SPDX-FileCopyrightText: 2012 Bystander <by@example.org>\n# SPDX-License-Identifier: 0BSD\nkept = 1\n"})
     steps = [{"argv": ["--version"], "observe": [{"kind": "reuse_info", "path": p} for n in [name] + extras + bystanders for p in (n, n + ".license")]}] + steps
@@ -210,6 +221,19 @@ def oracle(case, results):
                 continue
             # per file: did this step annotate it successfully?
             ok_line = any(l.startswith("Successfully changed header of") and (l.rstrip().endswith(n) or l.rstrip().endswith(n + ".license")) for l in out.splitlines())
+            wfault = [f for f in rec.get("fired", []) if f.split("|")[0].split(":")[0] in ("write", "open-w") and "|" in f
+                      and f.split("|", 1)[1] in (n, n + ".license")]
+            if wfault:
+                # the write of this file's header failed: the file may be truncated (the tool opens it for writing
+                # before it writes); that is only acceptable if the command did not report success
+                if code == 0:
+                    lost = sorted((set(D[n]["licenses"]) - set(obs.get("licenses", []))) | (set(D[n]["copyrights"]) - set(obs.get("copyrights", []))))
+                    want = sorted((set(req["licenses"]) - set(obs.get("licenses", []))) | (set(req["copyrights"]) - set(obs.get("copyrights", []))))
+                    if (lost or want) and n in named:
+                        vs.append({"sig": "C09/failed-write-reported-as-success",
+                                   "detail": f"step {k} argv={st['argv']}: {wfault} fired, exit status 0, {n} lost {lost} and lacks the requested {want}"})
+                D[n] = obs if "error" not in obs else dict(empty)
+                continue
             if n not in named or not ok_line:
                 # not named, skipped or failed for this file: what the file declares must at least not shrink
                 if "error" not in obs and n in named is False:
